@@ -27,6 +27,19 @@ def gen(rng, tier):
                                       spec="spec.hotp %s %s %d %d" % (t, hexs(k), c, d)))
         for d in range(1, 10):
             cases.append(Case("hotp %s %s %d %d" % (t, hexs(rfc), 7, d), "hotp %s digits=%d" % (t, d), True, spec="spec.hotp %s %s 7 %d" % (t, hexs(rfc), d)))
+        # counters whose MAC has a special shape (mined with python's hmac; the oracle stays the model): truncation offset 0 and 15, the sign bit of the
+        # selected word set, selected bytes 00 / ff, a 31-bit value below 10^(d-1) (a code with leading zeros), a value just below a multiple of 10^d
+        import hmac as _hmac, struct as _struct
+        def dt(mac): o = mac[-1] & 15; return o, mac[o:o + 4], int.from_bytes(mac[o:o + 4], "big") & 0x7FFFFFFF
+        shapes = [("offset=0", lambda mac: dt(mac)[0] == 0), ("offset=15", lambda mac: dt(mac)[0] == 15), ("sign-bit-set", lambda mac: dt(mac)[1][0] & 0x80),
+                  ("word-has-00", lambda mac: 0 in dt(mac)[1]), ("word-has-ff", lambda mac: 0xFF in dt(mac)[1]), ("word-first=00", lambda mac: dt(mac)[1][0] & 0x7F == 0),
+                  ("leading-zero-code", lambda mac: dt(mac)[2] % 10 ** 6 < 10 ** 4), ("code-all-nines-ish", lambda mac: dt(mac)[2] % 10 ** 6 >= 999000), ("value<2^16", lambda mac: dt(mac)[2] < 2 ** 16 * 50)]
+        for name, pred in shapes:
+            for c in range(0, 400000):
+                if pred(_hmac.new(rfc, _struct.pack(">Q", c), t).digest()):
+                    for d in (6, 8, rng.randrange(1, 10)):
+                        cases.append(Case("hotp %s %s %d %d" % (t, hexs(rfc), c, d), "hotp %s mac-%s" % (t, name), True, spec="spec.hotp %s %s %d %d" % (t, hexs(rfc), c, d)))
+                    break
         for d in [0, 10, -1, 2 ** 31 - 1, -2 ** 31]:
             cases.append(Case("hotp %s %s 1 %d" % (t, hexs(rfc), d), "hotp bad-digits", False))
         # TOTP at explicit time: t near multiples of p, across all 64 bits, periods to INT_MAX
